@@ -155,8 +155,9 @@ CLAIMED.update({
             "breaks = joins = 0, all per-assembly counts (0,0), and its scaffolds are exactly the input's (names, fragments, "
             "gaps, row order, orientation), rank 3, untagged. Found while proving: scaffolds absent from the map lost all but "
             "the last of a run of consecutive gap rows (the theorem needed their exclusion) -- reproduced on /repo, repaired by "
-            "a fix: commit, legacy behaviour refuted in Coq (C08_legacy_refuted). The painted variant (names = prefix + rank by "
-            "size, content unchanged) is decided by the correspondence and the oracle. " + PIPE,
+            "a fix: commit, legacy behaviour refuted in Coq (C08_legacy_refuted). C08_painted_null_map: the same maps with every "
+            "bait Painted, in any Pretext order: content unchanged, the shown scaffolds are prefix1..prefixk at rank 1 numbered "
+            "by non-increasing sequence length with ties in Pretext order, absent scaffolds unchanged at rank 3. " + PIPE,
             NOTE, "Coq proof end to end (1300 lines over the pipeline stages) + in-Coq correspondence of the pipeline + identity oracle", "DESIGN.md 6/C08, 13"),
     "C09": ("Coq theorems: label_tag_spec (FalseDuplicate > Haplotig > Contaminant incl. Target mode > none; haplotype; rank 3), "
             "Target mode monotone, labelling fails only for Unloc in an unpainted scaffold, and routing: with the repaired "
